@@ -7,7 +7,7 @@ id=$1; dir=$(cd "$2" && pwd); tier=${3:-quick}
 export GOFLAGS=-mod=mod GOPROXY=off GOSUMDB=off
 wt=$(mktemp -d /tmp/verif-eval-XXXX)
 git -C /repo worktree add -q --detach "$wt/r" HEAD || exit 2
-trap 'git -C /repo worktree remove --force "$wt/r" >/dev/null 2>&1; rm -rf "$wt"' EXIT
+trap 'git -C /repo worktree remove --force "$wt/r" >/dev/null 2>&1; rm -rf "$wt" /verif/.work/alt-*$(basename "$wt")*' EXIT
 if ! git -C "$wt/r" apply "$dir/patch.diff"; then echo "PATCH-DOES-NOT-APPLY"; exit 2; fi
 ( cd "$wt/r" && go build ./... ) || { echo "DOES-NOT-BUILD"; exit 2; }
 if ( cd "$wt/r" && go test -vet=off -count=1 ./... 2>&1 | grep -q "^FAIL\|^---.*FAIL" ); then echo "BASELINE-TESTS-FAIL"; fi
